@@ -33,9 +33,9 @@ def sigma_for(n):
     return np.array([[0.5 ** abs(i - j) * np.sqrt(d[i] * d[j]) for j in range(n)] for i in range(n)])
 
 
-def basis_rdms(basis, nc, measure='grid'):
+def basis_rdms(basis, nc, measure='grid', dtype=float):
     import rsatoolbox
-    return rsatoolbox.rdm.RDMs(np.array(basis, dtype=float), dissimilarity_measure=measure,
+    return rsatoolbox.rdm.RDMs(np.array(basis, dtype=dtype), dissimilarity_measure=measure,
                                descriptors={'session': 'x'},
                                rdm_descriptors={'name': [f'b{k}' for k in range(len(basis))]},
                                pattern_descriptors={'index': np.arange(nc), 'cond': [f'c{p + 1}' for p in range(nc)],
@@ -97,7 +97,7 @@ def check_problem(rec, comps, nc, rng, n_random=200, with_optimize=False, config
     K, R = len(basis), len(train)
     pidx = np.array(rec['pidx'], dtype=int)
     rep = len(set(rec['pidx'])) < len(rec['pidx'])
-    full = (sorted(rec['pidx']) == list(range(nc)))
+    interp_only = bool(rec.get('interp'))      # a path of 4-5 RDMs: selection / interpolation models only
     B = basis_rdms(basis, nc)
     D = data_rdms(train, nc)
     data = D.subsample_pattern('index', pidx)
@@ -122,13 +122,14 @@ def check_problem(rec, comps, nc, rng, n_random=200, with_optimize=False, config
             out.append((f'C08/raises/compare/{method}/{type(ex).__name__}', f'{type(ex).__name__}: {ex}', dict(case0, method=method)))
             continue
         # competitors shared by both regression fitters: TLC's grid, random directions and their absolute values
-        nr_ = n_random if not sig else max(20, n_random // 5)       # whitened + sigma_k: one cg solve per competitor
-        Rnd = rng.normal(size=(nr_, K))
-        C_all = np.vstack([wcomps.reshape(-1, K), Rnd, np.abs(Rnd)])
-        C_all = C_all[np.any(C_all != 0, axis=1)]
-        s_all = sc.many(C_all)
-        n_eval += len(C_all)
-        for fname, nonneg in (('fit_regress', False), ('fit_regress_nn', True)):
+        if not interp_only:
+            nr_ = n_random if not sig else max(20, n_random // 5)       # whitened + sigma_k: one cg solve per competitor
+            Rnd = rng.normal(size=(nr_, K))
+            C_all = np.vstack([wcomps.reshape(-1, K), Rnd, np.abs(Rnd)])
+            C_all = C_all[np.any(C_all != 0, axis=1)]
+            s_all = sc.many(C_all)
+            n_eval += len(C_all)
+        for fname, nonneg in (() if interp_only else (('fit_regress', False), ('fit_regress_nn', True))):
             fit = getattr(F, fname)
             case = dict(case0, method=method, sigma_k=None if sigma is None else sigma.tolist(), fitter=fname)
             try:
@@ -201,7 +202,7 @@ def check_problem(rec, comps, nc, rng, n_random=200, with_optimize=False, config
             except Exception as ex_:
                 out.append((f'C08/raises/fit_select/{method}/{type(ex_).__name__}', f'{type(ex_).__name__}: {ex_}', case))
         # d: interpolation
-        if (method in ('cosine', 'corr')) or (method == 'cosine_cov' and sig):
+        if (method in ('cosine', 'corr')) or (method == 'cosine_cov' and sig) or (interp_only and sig):
             case = dict(case0, method=method, sigma_k=None if sigma is None else sigma.tolist(), fitter='fit_interpolate')
             try:
                 th = np.asarray(F.fit_interpolate(mi, data, method=method, pattern_idx=pidx, pattern_descriptor='index', sigma_k=sigma),
@@ -230,15 +231,33 @@ def check_problem(rec, comps, nc, rng, n_random=200, with_optimize=False, config
                     j = int(np.nanargmax(s_c))
                     margin(('fit_interpolate', method, sig, R > 1, rep), s_c[j] - s_fit)
                     if s_c[j] > s_fit + TOL_INTERP:
-                        # the bounded scalar search is a local search: with non-positive similarities along a segment the
-                        # criterion is not unimodal; reported under its own key
-                        kind = 'beaten' if s_fit > 0 and min(s_c) > 0 else 'beaten/non-positive-similarity-on-segment'
+                        # classes of failure: (1) the bounded scalar search is a LOCAL search - where the similarity
+                        # changes sign (is non-positive) along a segment the criterion is not unimodal there (open known
+                        # finding, own key): on the returned segment or on the segment of the winning competitor;
+                        # (2) all similarities positive on both, the winner lies on ANOTHER segment: the search over the
+                        # segments is at fault; (3) same segment, positive: the scalar search itself
+                        T_ = np.array(T)
+
+                        def seg_of(t):
+                            nz = np.nonzero(t)[0]
+                            return {int(nz[0]) - 1, int(nz[0])} & set(range(K - 1)) if len(nz) == 1 else {int(nz[0])}
+
+                        def on_seg(t, sg):
+                            return all(t[k] == 0 for k in range(K) if k not in (sg, sg + 1))
+                        segs = seg_of(th) | seg_of(T_[j])
+                        sign_change = s_fit <= 0 or any(s_c[i] <= 0 for i in range(len(T_)) if any(on_seg(T_[i], sg) for sg in segs))
+                        if sign_change:
+                            kind = 'beaten/non-positive-similarity-on-segment'
+                        elif not (seg_of(th) & seg_of(T_[j])):
+                            kind = 'beaten/other-segment'
+                        else:
+                            kind = 'beaten'
                         out.append((f'C08/d/fit_interpolate/{method}/{kind}', 'another mixture of two adjacent RDMs scores higher',
                                     dict(case, theta=th.tolist(), score=s_fit, competitor=T[j].tolist(), competitor_score=float(s_c[j]))))
             except Exception as ex_:
                 out.append((f'C08/raises/fit_interpolate/{method}/{type(ex_).__name__}', f'{type(ex_).__name__}: {ex_}', case))
         # multi-start BFGS (a sample only)
-        if with_optimize and method in ('cosine', 'corr'):
+        if with_optimize and method in ('cosine', 'corr') and not interp_only:
             for fname, nonneg in (('fit_optimize', False), ('fit_optimize_positive', True)):
                 case = dict(case0, method=method, fitter=fname)
                 try:
@@ -264,7 +283,7 @@ def check_problem(rec, comps, nc, rng, n_random=200, with_optimize=False, config
                 except Exception as ex_:
                     out.append((f'C08/raises/{fname}/{method}/{type(ex_).__name__}', f'{type(ex_).__name__}: {ex_}', case))
     # ---------------- f: what enters the fit
-    out += check_deps(rec, nc, rng, mw, ms, mi)
+    out += check_deps(rec, nc, rng, mw, ms, mi, interp_only)
     return out, n_eval, stats
 
 
@@ -297,7 +316,7 @@ def _tokset(v):
     return sorted({int(round(x)) for x in v[~np.isnan(v)]})
 
 
-def check_deps(rec, nc, rng, mw, ms, mi):
+def check_deps(rec, nc, rng, mw, ms, mi, interp_only=False):
     """clause f: token inspection of what the fitters work on, and perturbation replay"""
     from rsatoolbox.model import ModelWeighted
     from rsatoolbox.model import fitter as F
@@ -309,7 +328,7 @@ def check_deps(rec, nc, rng, mw, ms, mi):
     want_idx = sorted(rec['pidx'])
     tm = [S.NAN if t == S.NAN else t for t in rec['tmpl']]
     want_rows = [[S.NAN if t == S.NAN else t + 100 * r for t in tm] for r in range(R)]
-    for fname, model in (('fit_regress', mw), ('fit_regress_nn', mw), ('fit_select', ms), ('fit_interpolate', mi)):
+    for fname, model in (('fit_regress', mw), ('fit_regress_nn', mw), ('fit_select', ms), ('fit_interpolate', mi))[(2 if interp_only else 0):]:
         with FitTap() as tap:
             try:
                 getattr(F, fname)(model, tdata, method='cosine', pattern_idx=pidx, pattern_descriptor='index')
@@ -341,7 +360,7 @@ def check_deps(rec, nc, rng, mw, ms, mi):
         B2 = basis_rdms(basis2, nc)
         D = data_rdms(rec['train'], nc).subsample_pattern('index', pidx)
         for fname, cls in (('fit_regress', 'ModelWeighted'), ('fit_regress_nn', 'ModelWeighted'), ('fit_select', 'ModelSelect'),
-                           ('fit_interpolate', 'ModelInterpolate')):
+                           ('fit_interpolate', 'ModelInterpolate'))[(2 if interp_only else 0):]:
             import rsatoolbox.model as M
             m1 = getattr(M, cls)('m', basis_rdms(rec['basis'], nc))
             m2 = getattr(M, cls)('m', B2)
@@ -359,17 +378,22 @@ def check_deps(rec, nc, rng, mw, ms, mi):
 
 
 # --------------------------------------------------------------------------- clauses g, h
-def check_lin(rec, nc):
-    """exact on the integer grid.  Returns list of violations."""
+DTYPES = ('float64', 'float32', 'int64', 'int32')
+
+
+def check_lin(rec, nc, dtype='float64', scale=1.0):
+    """exact on the integer grid.  ``dtype``: how the basis RDMs are stored (integer-valued in every flavour);
+    ``scale``: the weights are the grid weights times scale (1 or 1/4: quarters are exact in binary, so the
+    expected predictions stay exact while the weights are no longer integers).  Returns list of violations."""
     import rsatoolbox.model as M
     from rsatoolbox.model import model_from_dict
     out = []
     basis = rec['basis']
     K = len(basis)
-    th1, th2, c = np.array(rec['th1'], dtype=float), np.array(rec['th2'], dtype=float), float(rec['c'])
-    p1, p2, p12 = (np.array(rec[k], dtype=float) for k in ('p1', 'p2', 'p12'))
-    B = basis_rdms(basis, nc)
-    case = {'basis': basis, 'th1': rec['th1'], 'th2': rec['th2'], 'c': rec['c']}
+    th1, th2, c = np.array(rec['th1'], dtype=float) * scale, np.array(rec['th2'], dtype=float) * scale, float(rec['c'])
+    p1, p2, p12 = (np.array(rec[k], dtype=float) * scale for k in ('p1', 'p2', 'p12'))
+    B = basis_rdms(basis, nc, dtype=np.dtype(dtype))
+    case = {'basis': basis, 'th1': th1.tolist(), 'th2': th2.tolist(), 'c': rec['c'], 'basis_dtype': dtype}
 
     def desc_ok(r):
         pd, bd = r.pattern_descriptors, B.pattern_descriptors
